@@ -391,3 +391,49 @@ func short(s string, n int) string {
 }
 
 var _ = strings.Join
+
+// heldOnEntry: names of mutex fields that are exclusively held at every library call site of the
+// (unexported, statically called) function f — the E3 "held on entry" summary, depth 1.
+func (c *Ctx) heldOnEntry(f *ssa.Function) []string {
+	if f.Object() != nil && f.Object().Exported() {
+		return nil
+	}
+	var common map[string]bool
+	sites := 0
+	for _, caller := range c.P.LibraryFuncs() {
+		for _, ci := range flow.CallInstrs(caller) {
+			if flow.StaticCallee(ci) != f {
+				continue
+			}
+			if _, isGo := ci.(*ssa.Go); isGo {
+				return nil
+			}
+			sites++
+			here := map[string]bool{}
+			for _, op := range lockOps(caller) {
+				if op.acquire && op.exclusive && !op.deferred && mustHeldAt(caller, ci, op.path, true) {
+					parts := strings.Split(op.path, ".")
+					here[parts[len(parts)-1]] = true
+				}
+			}
+			if common == nil {
+				common = here
+			} else {
+				for k := range common {
+					if !here[k] {
+						delete(common, k)
+					}
+				}
+			}
+		}
+	}
+	if sites == 0 {
+		return nil
+	}
+	var out []string
+	for k := range common {
+		out = append(out, k)
+	}
+	sort.Strings(out)
+	return out
+}
